@@ -9,7 +9,7 @@ for name in $seeds; do
   prop=$(python3 -c "import json;print(json.load(open('seeded/$name/meta.json'))['property'])")
   if ! git -C /repo diff --quiet; then echo "repo dirty, abort"; exit 2; fi
   if ! git -C /repo apply /verif/seeded/$name/patch.diff 2>/tmp/apply_err; then echo "$name $prop PATCH-DOES-NOT-APPLY $(head -1 /tmp/apply_err)"; continue; fi
-  out=$(./check $prop --tier quick 2>&1 | grep -E "^(VIOLATION|OK|UNDECIDED|CHECKER|KNOWN)" | head -3 | tr '\n' ' ' | cut -c1-220)
+  out=$(./check $prop --tier quick 2>&1 | grep -E "^(VIOLATION|OK|UNDECIDED|CHECKER|KNOWN)" | cut -c1-75 | sort -r | head -3 | tr "\n" " ")
   rc=$?
   git -C /repo checkout -- .
   echo "$name $prop -> $out"
